@@ -110,14 +110,26 @@ instance (st : Sspoc) : Decidable st.Consistent := by
 def Sspoc.CountOk (st : Sspoc) : Prop :=
   st.fitted → st.nSensors = some (.int st.sel.length)
 
+/-- `update_sensors(n_sensors, threshold, xy=(x, y))` whose refit data the classifier REFUSES (scikit-learn raises ValueError:
+labels one short, a NaN measurement, …).  The code has by then stored the new count and selection (the statements before
+`classifier.fit`); the classifier keeps what it was trained on and `refit_` is not touched.  With no sensor selected nothing is
+refitted and the call is accepted.  This is finding F16 as the code behaves – not as it should. -/
+def Sspoc.updateRefused (st : Sspoc) (n : Option PyCount) (thr : Option Rat) (mag : List Rat) : Sspoc × Option Err :=
+  let r := st.updateSensors n thr false mag none
+  match r.2 with
+  | some e => (r.1, some e)
+  | none => if r.1.sel.length > 0 then (r.1, some .valueError) else (r.1, none)
+
 inductive SspocOp
   | fit (nFeat : Nat) (refit : Bool) (mag : List Rat) (dfltSel : List Nat)
   | update (n : Option PyCount) (thr : Option Rat) (xy : Bool) (mag : List Rat)
+  | updateRefused (n : Option PyCount) (thr : Option Rat) (mag : List Rat)
   deriving Repr
 
 def Sspoc.step (st : Sspoc) : SspocOp → Sspoc × Option Err
   | .fit nf r mag d => st.fit nf r mag d
   | .update n thr xy mag => st.updateSensors n thr xy mag none
+  | .updateRefused n thr mag => st.updateRefused n thr mag
 
 def Sspoc.run (st : Sspoc) (ops : List SspocOp) : Sspoc := ops.foldl (fun s op => (s.step op).1) st
 
